@@ -42,7 +42,7 @@ def encode(c):
         if k == "tostr":
             w.u32(c["bufsize"])
     elif k == "fromstr":
-        w.u8(c["which"]).blob(bytes.fromhex(c["text"]))
+        w.u8(c["which"]).blob(bytes.fromhex(c["text"])).u8(c.get("tail", 0))
     elif k == "len2mask":
         w.u8(c["fam"]).u64(c["len"])
     elif k == "mask2len":
@@ -82,6 +82,7 @@ def decode(c, raw):
         o["rc"] = r.i32()
         o["sa"] = read_sa(r)
         o["preflen"] = r.u16()
+        o["scope"], o["flow"] = r.u32(), r.u32()
     elif k == "len2mask":
         o["rc"] = r.i32()
         o["mask"] = r.blob()
@@ -226,6 +227,10 @@ def judge(c, o):
                           {"text": t.decode("latin-1"), "parsed": [got[0], hx(got[1]), got[2], got[3]]}))
             else:
                 outcome = "accepted"
+            if got is not None and b"%" not in t and (o["scope"] or o["flow"]):
+                # the result object held 0xA5 bytes before the call: fields the text does not set must not keep them
+                outcome = "stale-fields"
+                v.append(("oracle:%s:stale-bytes-in-result" % fn, [0, 0], {"text": t.decode("latin-1"), "scope_id": o["scope"], "flowinfo": o["flow"]}))
         elif cl[0] == "reject":
             if got is not None:
                 outcome = "accepted-invalid"
@@ -566,6 +571,9 @@ def gen_text(rng, widx, nworkers, tier):
             t = mutate(rng, t)
             src = "mutated"
         cases.append({"op": "fromstr", "which": which, "text": hx(t), "src": src})
+        if src == "valid" and rng.chance(1, 2):
+            # the same text as a slice of a longer buffer: decimal digits follow directly behind it
+            cases.append({"op": "fromstr", "which": which, "text": hx(t), "src": "valid+digits-behind", "tail": 3})
     return cases
 
 
